@@ -184,7 +184,7 @@ class C17(PropCheck):
             "built-in glue, both, neither, raising glue; concurrent: 2-4 threads, a second extraction started while the "
             "first is blocked inside the glue call of each module in turn; non-trivial = some glue ran; distinct = history")
     manifest = {
-        "text": "Lean: C17_conc_once, C17_conc_module_first, C17_conc_mutex (exactly once / never both kinds / module glue first / mutual exclusion of scans for any number of threads under every schedule, by an invariant over atomic steps), C17_once_vanishing / C17_module_first_vanishing (exactly once, never both kinds, module glue first — for every history in which, additionally, any set of modules may vanish from sys.modules while a scan is in progress: the repaired F16), C17_vanishing_conservative (with nothing vanishing the extended scan is the plain one), C17_F16_old_code_witness / C17_F16_repaired; C17_once (over every history of insertions, removals, re-insertions and extractions no module ever has a glue function called twice, nor one of each kind), C17_module_first (built-in glue only runs for modules without their own), C17_raise_only_warns (whether glue raises changes nothing but the inserted warnings: same calls, same order, same bookkeeping), C17_in_time_partial (for histories without removals, when an extraction returns every present module's glue has been dealt with), C17_F4_witness / C17_F4_recovers (the full in-time statement is false: remove one module, add a glue-bearing one — known finding F4), C17_appearing_in_time / C17_appearing_present / C17_appearing_keeps_invariants (modules imported DURING a scan, after its snapshot — a glue function importing its plugin — are dealt with when the next extraction returns: the cache holds the size of the visited snapshot) with C17_live_length_witness (refreshing the cache from the live length breaks it). Tie: real call logs of generated histories vs the model; threads entering extract while another scan is blocked inside each glue call are judged by the oracle.",
+        "text": "Lean: C17_conc_once, C17_conc_module_first, C17_conc_mutex (exactly once / never both kinds / module glue first / mutual exclusion of scans for any number of threads under every schedule, by an invariant over atomic steps), C17_once_vanishing / C17_module_first_vanishing (exactly once, never both kinds, module glue first — for every history in which, additionally, any set of modules may vanish from sys.modules while a scan is in progress: the repaired F16), C17_vanishing_conservative (with nothing vanishing the extended scan is the plain one), C17_F16_old_code_witness / C17_F16_repaired; C17_once (over every history of insertions, removals, re-insertions and extractions no module ever has a glue function called twice, nor one of each kind), C17_module_first (built-in glue only runs for modules without their own), C17_raise_only_warns (whether glue raises changes nothing but the inserted warnings: same calls, same order, same bookkeeping), C17_in_time_partial (for histories without removals, when an extraction returns every present module's glue has been dealt with), C17_F4_witness / C17_F4_recovers (the full in-time statement is false: remove one module, add a glue-bearing one — known finding F4), C17_appearing_in_time / C17_appearing_present / C17_appearing_keeps_invariants (modules imported DURING a scan, after its snapshot — a glue function importing its plugin — are dealt with when the next extraction returns: the cache holds the size of the visited snapshot) with C17_live_length_witness (refreshing the cache from the live length breaks it), C17_initializing_once / C17_initializing_untouched (a module that is still being imported is left alone by the scan, all invariants kept) with C17_F44_witness (the scan before the repair of F44 ran the built-in glue for it). Tie: real call logs of generated histories vs the model; threads entering extract while another scan is blocked inside each glue call are judged by the oracle.",
         "note": "Concurrency: C17_conc_once / C17_conc_once_log / C17_conc_module_first / C17_conc_mutex hold for any number of threads and every interleaving of their atomic steps with insertions and removals (SSModel/GlueConc.lean); the granularity (both pops for a name in one step) relies on only the lock holder scanning, and on dict.pop being atomic under the GIL. 'In time' under concurrency (a later extraction waits for the scan in progress) is checked on the real code with glue calls as preemption points and compared with the model's log under the same schedule, but not proved (it needs the lock's blocking semantics and fairness). In-time for histories with removals is false (F4).",
     }
     assumptions = ["dict.pop and len() are atomic under the GIL", "fake modules stand for real library modules"]
@@ -213,6 +213,11 @@ class C17(PropCheck):
             mods = [[0, k0 == "mod", k0 == "builtin", False, False], [1, k1 in ("mod", "both"), k1 in ("builtin", "both"), False, False]]
             mods += [[2 + j, False, rng.random() < 0.5, False, False] for j in range(extra)]
             out.append({"k": "glue_imports", "mods": mods, "extra": extra})
+        # a module that is still being imported when an extraction happens (F44)
+        for k1 in ("mod", "builtin", "both"):
+            for k2 in ("mod", "builtin"):
+                out.append({"k": "initializing", "mods": [[1, k1 in ("mod", "both"), k1 in ("builtin", "both"), False, False],
+                                                          [2, k2 == "mod", k2 == "builtin", False, False]]})
         # built-in glue registered for a module that is already loaded (what happens at `import stackscope`)
         for own in (True, False):
             for raises in (False, True):
@@ -242,6 +247,9 @@ class C17(PropCheck):
             sched = [["insert", m[0]] for m in case["mods"]] + [["until_popped", 0, case["block_at"]]]
             sched += [["until_stuck", i] for i in range(1, n)] + [["until_stuck", 0]] + [["until_stuck", i] for i in range(1, n)]
             return json.dumps({"p": "C17", "mods": case["mods"], "threads": n, "sched": sched})
+        if case["k"] == "initializing":
+            ops = [["insert", 1], ["extractI", [1]], ["insert", 2], ["extract"], ["extract"]]
+            return json.dumps({"p": "C17", "mods": case["mods"], "ops": ops})
         if case["k"] == "glue_imports":
             ops = [["insert", 2 + j] for j in range(case["extra"])] + [["insert", 0], ["extractA", [1]], ["extract"], ["extract"]]
             return json.dumps({"p": "C17", "mods": case["mods"], "ops": ops})
@@ -265,6 +273,21 @@ class C17(PropCheck):
             return " ".join(lab.log)
         if case["k"] == "nested":
             return self.run_nested(case)
+        if case["k"] == "initializing":
+            # module 1 is in sys.modules but its body is still running (as the import system marks it): it has not defined its own
+            # glue yet; an extraction happens; the import finishes; another module arrives; extractions go on
+            m1 = lab.objs[1]
+            own = m1.__dict__.pop("_stackscope_install_glue_", None)
+            m1.__spec__ = types.SimpleNamespace(_initializing=True)
+            lab.insert(1)
+            lab.extract()
+            if own is not None:
+                m1._stackscope_install_glue_ = own
+            m1.__spec__._initializing = False
+            lab.insert(2)
+            lab.extract()
+            lab.extract()
+            return " ".join(lab.log)
         if case["k"] == "glue_imports":
             for j in range(case["extra"]):
                 lab.insert(2 + j)
@@ -481,6 +504,21 @@ class C17(PropCheck):
                     for g in gone:
                         if g in present:
                             present.remove(g)
+            return None
+        if case["k"] == "initializing":
+            # module 1's own glue, if it has one, is the only glue that may ever run for it; whatever it has runs exactly once, by the
+            # time the extraction after the end of its import returns; nothing runs for it while it is being imported
+            _, has_mod, has_builtin, _, _ = case["mods"][0]
+            want = f"{'mod' if has_mod else 'builtin'}1"
+            first_ret = log.index("ret") if "ret" in log else len(log)
+            ran1 = [e for e in log if e in ("mod1", "builtin1")]
+            if any(e in ("mod1", "builtin1") for e in log[:first_ret]) and has_mod:
+                return f"glue ran for module 1 while it was still being imported (it had not defined its own glue yet): log {log}"
+            if ran1 != [want]:
+                return f"module 1 (imported while an extraction happened): glue calls {ran1}, expected [{want}] (log {log})"
+            second_ret = [i for i, e in enumerate(log) if e == "ret"][1:2]
+            if second_ret and want not in log[:second_ret[0]]:
+                return f"the extraction after module 1's import had finished returned before its glue ({want}) had run: log {log}"
             return None
         # concurrent
         if real.get("returned_early"):
